@@ -251,6 +251,25 @@ func runPrimCases(c *ev.Ctx, lens string, nRand int) ([]primCase, bool) {
 		}
 		r32 = append(r32, v)
 	}
+	// decimal boundaries (a change of the number of digits) and the edges of float64's exact range
+	{
+		var specials []uint64
+		p10 := uint64(1)
+		for k := 0; k < 20; k++ {
+			specials = append(specials, p10-1, p10, p10+1)
+			if k < 19 {
+				p10 *= 10
+			}
+		}
+		specials = append(specials, 1<<53-1, 1<<53, 1<<53+1, 1<<63-1, 1<<63, 10005, 10000, 4000000000, 1000000007)
+		for _, v := range specials {
+			w := make([]int, 8)
+			for k := range w {
+				w[k] = int(v >> (8 * uint(k)) & 0xff)
+			}
+			r64 = append(r64, w)
+		}
+	}
 	gen := fmt.Sprintf("---- MODULE MCPrimsRun ----\nEXTENDS MCPrims\nGenLens == %s\nGenRand64 == %s\nGenRand32 == %s\n====\n", lens, tlaLimbSet(r64), tlaLimbSet(r32))
 	_ = os.WriteFile(filepath.Join(dir, "MCPrimsRun.tla"), []byte(gen), 0644)
 	cfg := "CONSTANTS\n Slacks = {0, 9}\n Lens <- GenLens\n Priors = {\"zero\", \"ff\", \"pat\"}\n Words64 <- MCWords64\n Words32 <- MCWords32\n Rand64 <- GenRand64\n Rand32 <- GenRand32\nINIT Init\nNEXT Next\nINVARIANTS RoundTrip Framed RefusedUntouched WindowFramed DecCanonical Emit\n"
